@@ -53,7 +53,7 @@ def generate(R, tier):
         ve, vr, vx = _var(R, ntr), _var(R, ntr), 0.0
     else:
         ve, vr, vx = _var(R, ntr), _var(R, ntr), _var(R, ntr)
-    return {"world": {"seed": R.randrange(1 << 30), "ntaxa": R.randint(1, 8), "nvrnt": R.randint(1, 10), "ntrait": ntr, "taxa_grp": R.random() < 0.7},
+    return {"world": {"seed": R.randrange(1 << 30), "ntaxa": R.randint(1, 8), "nvrnt": R.randint(1, 10), "ntrait": ntr, "taxa_grp": R.random() < 0.7, "nfixed": R.choice([1, 1, 1, 2, 3])},
             "nenv": nenv, "nrep": (R.randint(1, 3) if R.random() < 0.5 else [R.randint(1, 3) for _ in range(nenv)]),
             "var_env": ve, "var_rep": vr, "var_err": vx, "vclass": vclass,
             "h2": (None if R.random() < 0.6 else {"which": R.choice(["h2", "H2"]), "value": R.choice([1.0, 0.5, 0.25, 0.9, R.random() * 0.98 + 0.01])}),
@@ -99,7 +99,7 @@ def execute(sc):
     R = random.Random(w["seed"])
     nt, ntr = w["ntaxa"], w["ntrait"]
     pg = world.pgmat(R, nt, w["nvrnt"], 1, taxa_grp=w["taxa_grp"], names=["L%d" % i for i in range(nt)])
-    gm = world.algmod(R, w["nvrnt"], ntr)
+    gm = world.algmod(R, w["nvrnt"], ntr, nfixed=w.get("nfixed", 1))
     g = rngseam.make(sc["rng"]["kind"], sc["rng"]["seed"])
     g.mvn_record = []
     V, log, faults, probes = [], [], {}, {}
@@ -141,6 +141,15 @@ def execute(sc):
                 probes["no_genetic_variance"] = 1
     var_env, var_rep, var_err = (numpy.asarray(getattr(pt, k), dtype=float) for k in ("var_env", "var_rep", "var_err"))
     truth = numpy.asarray(gm.gegv(pg).unscale(), dtype=float)
+    # the true genotypic value, from the allele calls: intercept (first fixed effect plus the cell mean of the others) + dosage . effects
+    beta = numpy.asarray(gm.beta, dtype=float)
+    dose = numpy.asarray(pg.mat).astype(float).sum(0)
+    truth_ref = dose @ numpy.asarray(gm.u_a, dtype=float) + beta[0] + (beta[1:].sum(0) / beta.shape[0] if beta.shape[0] > 1 else 0.0)
+    if truth.shape != truth_ref.shape or numpy.any(numpy.abs(truth - truth_ref) > 64 * 2.3e-16 * (numpy.abs(dose) @ numpy.abs(numpy.asarray(gm.u_a, dtype=float)) + numpy.abs(beta).sum(0) + 1.0)):
+        V.append(viol("zero-noise-equals-truth", "DenseAdditiveLinearGenomicModel.gegv", "genotypic-value",
+                      "genotypic values reported by the model differ from intercept + dosage x effects computed from the allele calls (max deviation %r)" %
+                      (float(numpy.abs(truth - truth_ref).max()) if truth.shape == truth_ref.shape else None)))
+        return _out(sc, V, log, faults, probes, False)
     allzero = not (numpy.any(var_env != 0) or numpy.any(var_rep != 0) or numpy.any(var_err != 0))
     if allzero:
         faults["all_variances_zero"] = 1
